@@ -102,6 +102,9 @@ def handleP (op : String) : P String := do
   | "rowlimit" => do
       let salt := pHex (← nxt); let seed ← nU; let rows ← nN; let fr ← nN
       return toString (noisyRowLimit realEnv salt seed rows fr)
+  | "cap" => do
+      let lt ← nI; let sing ← nI; let rg ← nI; let gap ← nF; let sd ← nF
+      return toString (maxLowCount lt sing rg gap sd)
   | "round" => return toString (ScalarOps.roundHE (← nF))
   | "trunc" => return toString (ScalarOps.trunc (← nF))
   | _ => return "ERR bad-op"
